@@ -2014,12 +2014,12 @@ func init() {
 		}
 		// scripted roll-back histories of the real filter-header store
 		rb := tr.Rng(515)
-		for i := 0; i < n/20; i++ {
+		for i := 0; i < n/24; i++ {
 			runRollbackHist(t, rb, i%3)
 		}
 		// several networks' filter stores in this one process
 		rn := tr.Rng(525)
-		for i := 0; i < n/20; i++ {
+		for i := 0; i < n/30; i++ {
 			runMultiNet(t, rn, i%3)
 		}
 		if uni != nil { // the universe may live on /dev/shm, which bin/check does not clean
